@@ -8,7 +8,10 @@ package ucfg
 // clause is evaluated in Go) and as witness constructors for abstract string
 // functions. Nothing here is reachable from the library without the tag.
 
-import "strconv"
+import (
+	"reflect"
+	"strconv"
+)
 
 // ghost_parsesInt: strconv.ParseInt(s, 0, 64) succeeds.
 func ghost_parsesInt(s string) bool {
@@ -24,3 +27,61 @@ func ghost_intOf(s string) int64 {
 
 // ghost_itoa is the witness constructor for intOf: a string s with intOf(s) == n.
 func ghost_itoa(n int64) string { return strconv.FormatInt(n, 10) }
+
+// reflect handles: what a reflect.Value holds.
+func ghost_rvAny(v reflect.Value) interface{} {
+	if !v.IsValid() {
+		return nil
+	}
+	return v.Interface()
+}
+
+func ghost_rvType(v reflect.Value) reflect.Type {
+	if !v.IsValid() {
+		return nil
+	}
+	return v.Type()
+}
+
+func ghost_rvInt(v reflect.Value) int64 {
+	switch v.Kind() {
+	case reflect.Int, reflect.Int8, reflect.Int16, reflect.Int32, reflect.Int64:
+		return v.Int()
+	}
+	return 0
+}
+
+func ghost_rvUint(v reflect.Value) uint64 {
+	switch v.Kind() {
+	case reflect.Uint, reflect.Uint8, reflect.Uint16, reflect.Uint32, reflect.Uint64, reflect.Uintptr:
+		return v.Uint()
+	}
+	return 0
+}
+
+func ghost_rvFloat(v reflect.Value) float64 {
+	switch v.Kind() {
+	case reflect.Float32, reflect.Float64:
+		return v.Float()
+	}
+	return 0
+}
+
+func ghost_rvBool(v reflect.Value) bool { return v.Kind() == reflect.Bool && v.Bool() }
+
+func ghost_tbits(t reflect.Type) int {
+	switch t.Kind() {
+	case reflect.Int, reflect.Int8, reflect.Int16, reflect.Int32, reflect.Int64,
+		reflect.Uint, reflect.Uint8, reflect.Uint16, reflect.Uint32, reflect.Uint64, reflect.Uintptr,
+		reflect.Float32, reflect.Float64:
+		return t.Bits()
+	}
+	return 0
+}
+
+func ghost_parsesUint(s string) bool  { _, err := strconv.ParseUint(s, 0, 64); return err == nil }
+func ghost_uintOf(s string) uint64    { n, _ := strconv.ParseUint(s, 0, 64); return n }
+func ghost_parsesFloat(s string) bool { _, err := strconv.ParseFloat(s, 64); return err == nil }
+func ghost_floatOf(s string) float64  { n, _ := strconv.ParseFloat(s, 64); return n }
+func ghost_parsesBool(s string) bool  { _, err := strconv.ParseBool(s); return err == nil }
+func ghost_boolOf(s string) bool      { b, _ := strconv.ParseBool(s); return b }
